@@ -113,6 +113,14 @@ def commit (env : Env) (prog : List Act) (s : Store) : Option Store :=
 /-- a configuration statement = the actions its directive declares, in the order it declares them -/
 structure Stmt where
   acts : List Act
+  /-- the package of the configurator that issues the statement (`Configurator.include` gives the nested configurator
+  `package_of(module of the includeme)`).  What a statement MEANS is a function of its own arguments, this package
+  (relative renderer / asset specs, relative dotted names, relative translation dirs are resolved against it) and the
+  route prefix; the meaning is fixed when the statement is issued and travels with the statement: the actions in
+  `acts` (ids, discriminators, footprints, semantics `Env`) are those of *this* statement in *this* package.  Moving
+  the statement to another place of the program, or its package's include before/after another package's include,
+  does not change `pkg`, so `statements_order_irrelevant` speaks about programs spread over any number of packages. -/
+  pkg : Nat := 0
 deriving Repr
 
 /-- a program of statements expands to the list of declared actions -/
